@@ -156,7 +156,7 @@ func (l *Leaf) Reset() {
 
 // Comp is a node of a core composition.
 type Comp struct {
-	Kind      string // leaf, tee, increase, hooks, lazy, with, sampler, dropsampler, nop
+	Kind      string            // leaf, tee, increase, hooks, lazy, with, sampler, dropsampler, nop
 	Seen      map[[2]uint32]int // dropsampler: entries counted per (level, message bucket)
 	Enab      *Enab
 	Kids      []*Comp
@@ -164,6 +164,10 @@ type Comp struct {
 	HookID    int
 	Collapsed bool // increase-level whose construction failed (as it must): acts as its inner core
 	Fields    []zapcore.Field
+	// a node may be the child of two parents (siblings derived from one shared core); it is built once
+	built   zapcore.Core
+	isBuilt bool
+	Shared  bool
 }
 
 // Env collects what building a composition registers.
@@ -220,6 +224,9 @@ func (g *G) Composition(env *Env, depth int) *Comp {
 		env.Leaves = append(env.Leaves, l)
 		return &Comp{Kind: "leaf", Leaf: l, Enab: g.Enabler(env.Atomics)}
 	}
+	if depth >= 2 && r.P(1, 5) {
+		return g.siblings(env, depth)
+	}
 	switch r.Intn(9) {
 	case 0, 1, 2:
 		c := &Comp{Kind: "tee"}
@@ -244,10 +251,68 @@ func (g *G) Composition(env *Env, depth int) *Comp {
 	}
 }
 
+// siblings generates two cores derived from one shared parent core (the same instance), combined by a
+// tee: tee(wrap1(S), wrap2(S)). The shared parent is itself the product of repeated extension (a tee
+// extended by a tee, hooks stacked on hooks, a filter over a filter), the shape in which a constructor
+// that extends its argument in place would make the siblings disturb each other.
+func (g *G) siblings(env *Env, depth int) *Comp {
+	r := g.R
+	hook := func(k *Comp) *Comp {
+		id := len(env.HookCalls)
+		env.HookCalls = append(env.HookCalls, 0)
+		return &Comp{Kind: "hooks", HookID: id, Kids: []*Comp{k}}
+	}
+	var s *Comp
+	switch r.Intn(4) {
+	case 0:
+		s = &Comp{Kind: "tee", Kids: []*Comp{g.Composition(env, 0), g.Composition(env, 0)}}
+		for n := r.Range(1, 3); n > 0; n-- {
+			s = &Comp{Kind: "tee", Kids: []*Comp{s, g.Composition(env, 0)}}
+		}
+	case 1:
+		s = g.Composition(env, depth-2)
+		for n := r.Range(1, 4); n > 0; n-- {
+			s = hook(s)
+		}
+	case 2:
+		s = g.Composition(env, depth-2)
+		for n := r.Range(1, 2); n > 0; n-- {
+			s = &Comp{Kind: "increase", Enab: g.Enabler(env.Atomics), Kids: []*Comp{s}}
+		}
+	default:
+		s = g.Composition(env, depth-2)
+	}
+	s.Shared = true
+	wrap := func() *Comp {
+		switch r.Intn(5) {
+		case 0, 1:
+			return &Comp{Kind: "tee", Kids: []*Comp{s, g.Composition(env, 0)}}
+		case 2:
+			return hook(s)
+		case 3:
+			return &Comp{Kind: "increase", Enab: g.Enabler(env.Atomics), Kids: []*Comp{s}}
+		}
+		return &Comp{Kind: rng.Pick(r, []string{"lazy", "with"}), Fields: []zapcore.Field{zap.Int("ctx", r.Intn(100))}, Kids: []*Comp{s}}
+	}
+	root := &Comp{Kind: "tee", Kids: []*Comp{wrap(), wrap()}}
+	if r.P(1, 3) {
+		root.Kids = append(root.Kids, wrap())
+	}
+	return root
+}
+
 var leafEncCfg = zapcore.EncoderConfig{MessageKey: "msg", LevelKey: "level", EncodeLevel: zapcore.LowercaseLevelEncoder, NameKey: "logger", TimeKey: "ts", EncodeTime: zapcore.EpochNanosTimeEncoder, EncodeDuration: zapcore.NanosDurationEncoder, CallerKey: "caller", EncodeCaller: zapcore.FullCallerEncoder, StacktraceKey: "stack"}
 
 // Build constructs the real core and checks construction-time expectations.
 func (c *Comp) Build(env *Env) zapcore.Core {
+	if !c.isBuilt {
+		c.built = c.build(env)
+		c.isBuilt = true
+	}
+	return c.built
+}
+
+func (c *Comp) build(env *Env) zapcore.Core {
 	switch c.Kind {
 	case "nop":
 		return zapcore.NewNopCore()
@@ -267,7 +332,18 @@ func (c *Comp) Build(env *Env) zapcore.Core {
 		for _, k := range c.Kids {
 			cs = append(cs, k.Build(env))
 		}
-		return zapcore.NewTee(cs...)
+		// the caller's slice belongs to the caller: it is reused for a second, discarded, tee and must
+		// come back unchanged from both
+		keep := append([]zapcore.Core(nil), cs...)
+		tee := zapcore.NewTee(cs...)
+		zapcore.NewTee(cs...)
+		for i := range keep {
+			if !sameCore(keep[i], cs[i]) {
+				env.Problems = append(env.Problems, fmt.Sprintf("NewTee changed element %d of the slice it was called with (%s)", i, c))
+				break
+			}
+		}
+		return tee
 	case "increase":
 		inner := c.Kids[0].Build(env)
 		// the constructor must reject a filter that enables a supported level the inner core does not
@@ -312,15 +388,24 @@ func (c *Comp) Build(env *Env) zapcore.Core {
 	panic("unknown comp " + c.Kind)
 }
 
+func sameCore(a, b zapcore.Core) (same bool) {
+	defer func() {
+		if recover() != nil { // uncomparable dynamic types (a tee is a slice)
+			same = fmt.Sprintf("%p", a) == fmt.Sprintf("%p", b)
+		}
+	}()
+	return a == b
+}
+
 // Deliver is the model for a hypothetical entry: which leaves would receive an entry at level l
 // (first occurrence of its message) and how often each hook would fire. It changes no state.
-func (c *Comp) Deliver(l zapcore.Level, leaves map[int]bool, hooks map[int]int) bool {
+func (c *Comp) Deliver(l zapcore.Level, leaves map[int]int, hooks map[int]int) bool {
 	return c.deliver(nil, l, leaves, hooks)
 }
 
 // DeliverCall is the model for an entry that is really logged with message msg: dropping
 // samplers count it.
-func (c *Comp) DeliverCall(l zapcore.Level, msg string, leaves map[int]bool, hooks map[int]int) bool {
+func (c *Comp) DeliverCall(l zapcore.Level, msg string, leaves map[int]int, hooks map[int]int) bool {
 	return c.deliver(&msg, l, leaves, hooks)
 }
 
@@ -333,13 +418,13 @@ func fnv32a(s string) uint32 {
 	return h
 }
 
-func (c *Comp) deliver(msg *string, l zapcore.Level, leaves map[int]bool, hooks map[int]int) bool {
+func (c *Comp) deliver(msg *string, l zapcore.Level, leaves map[int]int, hooks map[int]int) bool {
 	switch c.Kind {
 	case "nop":
 		return false
 	case "leaf":
 		if c.Enab.On(l) {
-			leaves[c.Leaf.ID] = true
+			leaves[c.Leaf.ID]++
 			return true
 		}
 		return false
@@ -381,13 +466,16 @@ func (c *Comp) deliver(msg *string, l zapcore.Level, leaves map[int]bool, hooks 
 
 // EnabledModel reports whether any leaf would receive level l.
 func (c *Comp) EnabledModel(l zapcore.Level) bool {
-	return c.Deliver(l, map[int]bool{}, map[int]int{})
+	return c.Deliver(l, map[int]int{}, map[int]int{})
 }
 
 // Shape tags the composition for coverage.
 func (c *Comp) Shape(depth int, into map[string]int) int {
 	d := depth
 	into[c.Kind]++
+	if c.Shared {
+		into["shared-parent-visit"]++
+	}
 	for _, k := range c.Kids {
 		if kd := k.Shape(depth+1, into); kd > d {
 			d = kd
